@@ -189,7 +189,8 @@ func c01Adapter() *vc01.Adapter {
 			}
 			return ""
 		},
-		UnstableDiff: "map-entries-reordered",
+		UnstableDiff:  "map-entries-reordered",
+		DataCarriesID: true,
 		EncodeTries: func(c vc01.Case) int {
 			// TarsGo writes maps by ranging over a Go map: with two entries the order
 			// is swapped in roughly one encode out of eight; 256 tries make a miss
@@ -366,7 +367,7 @@ func TestVerifC01TarsFidelity(t *testing.T) {
 	p.End(complete,
 		fmt.Sprintf("dirs %v x servant-name|result-desc length %v x context|status map shapes (none,1,2,300 pairs x key/value %v with pairwise distinct keys, +one 65536-byte value) x sBuffer length %v x id %v x newid(quick: complement; thorough: all) x {buffer left alone, overwritten}; + old id x new id over %v; + one-at-a-time sweep of iVersion,cPacketType,iMessageType,iTimeout|iRet over the same integers (in range), function-name length {0,1,255,256,65535}, the other map with {0,1,2} pairs; + zero/min/max frames; + 256 one-byte bodies",
 			c01Dirs, vref.Lens16, vref.PairLens, vref.ContentLens, vref.IDs32, c01Ints),
-		"every case = one canonical tars frame (vref writer == TarsGo writer, checked) followed by a second small frame in one read buffer: Decode, consumption == frame length, GetHeader/GetData/SetData(same)/SetRequestId(new)/Encode as xStream.endStream does; bytes must equal the canonical encoding of the same packet with only iRequestId replaced; Encode is repeated 256 times (8 times for frames above 4 KiB) when a map has >= 2 entries (the codec re-encodes through Go maps); scribble=true overwrites the whole read buffer after Decode. Non-canonical (wider than necessary) encodings are not enumerated")
+		"every case = one canonical tars frame (vref writer == TarsGo writer, checked) followed by a second small frame in one read buffer: Decode, consumption == frame length, GetHeader/GetData/SetData(same)/SetRequestId(new)/Encode as xStream.endStream does — three times on the same frame object with the same data buffer object (first try + two retries; ids new, old, new), after which the data buffer must still read the same; bytes must equal the canonical encoding of the same packet with only iRequestId replaced; Encode is repeated 256 times (8 times for frames above 4 KiB) when a map has >= 2 entries (the codec re-encodes through Go maps); scribble=true overwrites the whole read buffer after Decode. Non-canonical (wider than necessary) encodings are not enumerated")
 }
 
 func TestVerifC01TarsModify(t *testing.T) {
@@ -374,5 +375,5 @@ func TestVerifC01TarsModify(t *testing.T) {
 	a := c01Adapter()
 	complete := vreport.Run(p, c01ModCases, func(p *vreport.Part, c vc01.Case) { vc01.CheckMod(p, a, c) })
 	p.End(complete, "dirs x servant|desc {1,100 | thorough: all} x map shapes {none, 1 pair | thorough: all with distinct keys} x sBuffer {0,1,100 | thorough: all} x 10 modifications (quick keeps base frames below 256 bytes, the only ones the unchanged tree decodes)",
-		"modification applied through HeaderMap.Set/Del and SetData; Encode must return an error or bytes that the reference parser AND a fresh Decode read back as exactly the modified headers/body with consistent lengths. Header view of a request = service, method; of a response = none; the tars codec exposes the whole frame as data, a replacement body is a well-formed frame of the same packet with another sBuffer")
+		"modification applied through HeaderMap.Set/Del and SetData; then three upstream attempts (SetData(same buffer object), SetRequestId, Encode): the first Encode must return an error or, like each later one, bytes that the reference parser AND a fresh Decode read back as exactly the modified headers/body with consistent lengths. Header view of a request = service, method; of a response = none; the tars codec exposes the whole frame as data, a replacement body is a well-formed frame of the same packet with another sBuffer")
 }
